@@ -1,8 +1,9 @@
 (* C19 — flat-integer interface of the model for the correspondence check.
    Every rational is a dyadic pair (m, k) meaning m / 2^k (k may be negative):
    exactly the value of a float64.
-   input : [linear; tbin_m; tbin_k; delta_m; delta_k;
+   input : [linear; K; tbin_m; tbin_k; delta_m; delta_k;
             na; (m,k)*na; nb; (m,k)*nb; nq; (m,k)*nq]
+           K >= every k and K >= 0: the common tick is 2^-K s
    output: [0]                                   a polyfit call was singular
          | 1 :: enc(ib after first pass) ++ enc(final ib) ++ [frag1; frag2]
              ++ [floor(slope * 10^18)] ++ enc(map (fun q => floor(fcn(q) * 10^12)) queries)
@@ -16,63 +17,72 @@ From IBL.C19 Require Import Model.
 Import ListNotations.
 Open Scope Z_scope.
 
-Definition dy (m k : Z) : Q :=
-  if 0 <=? k then Qmake m (Z.to_pos (2 ^ k)) else inject_Z (m * 2 ^ (- k)).
+(* ticks of 2^-K *)
+Definition tk (K m k : Z) : Z := m * 2 ^ (K - k).
 
-Fixpoint take_dy (n : nat) (l : list Z) : list Q * list Z :=
+Fixpoint take_tk (K : Z) (n : nat) (l : list Z) : list Z * list Z :=
   match n, l with
-  | S n', m :: k :: r => let '(qs, rest) := take_dy n' r in (dy m k :: qs, rest)
+  | S n', m :: k :: r => let '(qs, rest) := take_tk K n' r in (tk K m k :: qs, rest)
   | _, _ => ([], l)
   end.
 
-Definition dec_qlist (l : list Z) : list Q * list Z :=
+Definition dec_tlist (K : Z) (l : list Z) : list Z * list Z :=
   match l with
   | [] => ([], [])
-  | n :: r => take_dy (Z.to_nat n) r
+  | n :: r => take_tk K (Z.to_nat n) r
   end.
 
 Definition clampz (z : Z) : Z := Z.max (- 2 ^ 61) (Z.min (2 ^ 61) z).
 Definition fixq (scale : Z) (x : Q) : Z := clampz (Qfloor (x * inject_Z scale)).
 
-Definition eps : Q := Qmake 1 (Z.to_pos (2 ^ 30)).
-
 (* some pair of distinct list positions closer than eps *)
-Fixpoint close_pair (l : list Q) : bool :=
+Fixpoint close_pair {A} (dist : A -> A -> bool) (l : list A) : bool :=
   match l with
   | [] => false
-  | x :: r => existsb (fun y => qltb (qdist x y) eps) r || close_pair r
+  | x :: r => existsb (dist x) r || close_pair dist r
   end.
 
-Definition frag_of (thr : Q) (ds : list Q) : bool :=
+(* first pass, integer ticks *)
+Definition frag_z (eps thr : Z) (ds : list Z) : bool :=
+  existsb (fun d => Z.abs (d - thr) <? eps) ds
+  || close_pair (fun x y => Z.abs (x - y) <? eps) (filter (fun d => d <? thr + eps) ds).
+
+Definition frag1 (eps thr delta : Z) (tsa tsb : list Z) : bool :=
+  existsb (fun a => frag_z eps thr (map (fun b => Z.abs (a - delta - b)) tsb)) tsa.
+
+(* second pass, rationals *)
+Definition frag_q (eps thr : Q) (ds : list Q) : bool :=
   existsb (fun d => qltb (qdist d thr) eps) ds
-  || close_pair (filter (fun d => qltb d (thr + eps)%Q) ds).
+  || close_pair (fun x y => qltb (qdist x y) eps) (filter (fun d => qltb d (thr + eps)%Q) ds).
 
-Definition frag1 (thr delta : Q) (tsa tsb : list Q) : bool :=
-  existsb (fun a => frag_of thr (map (fun b => qdist (a - delta)%Q b) tsb)) tsa.
-
-Definition frag2 (thr : Q) (f : a2b) (tsa tsb : list Q) (ib1 : list Z) : bool :=
+Definition frag2 (eps thr : Q) (f : a2b) (tsa tsb : list Q) (ib1 : list Z) : bool :=
   let al := amiss f tsa ib1 0 in
   let bl := bmiss tsb ib1 0 in
-  frag_of thr (flat_map (fun bj => map (fun am => qdist (snd am) (snd bj)) al) bl).
+  frag_q eps thr (flat_map (fun bj => map (fun am => qdist (snd am) (snd bj)) al) bl).
 
 Definition run (inp : list Z) : list Z :=
   match inp with
-  | lin :: tm :: tk :: dm :: dk :: rest =>
+  | lin :: K :: tm :: tk_ :: dm :: dk :: rest =>
       let linear := lin =? 1 in
-      let tbin := dy tm tk in
-      let delta := dy dm dk in
-      let '(tsa, r1) := dec_qlist rest in
-      let '(tsb, r2) := dec_qlist r1 in
-      let '(qs, _) := dec_qlist r2 in
-      match sync linear tbin delta tsa tsb with
+      let den := Z.to_pos (2 ^ K) in
+      let tbin := tk K tm tk_ in
+      let delta := tk K dm dk in
+      let '(tsa, r1) := dec_tlist K rest in
+      let '(tsb, r2) := dec_tlist K r1 in
+      let '(qs, _) := dec_tlist K r2 in
+      let qa := map (tq den) tsa in
+      let qb := map (tq den) tsb in
+      let epsz := 2 ^ K / 2 ^ 30 in
+      match sync linear den tbin delta tsa tsb with
       | None => [0]
       | Some r =>
-          let f1 := match interp_fcn linear tsa (sr_ib1 r) tsb with
+          let f1 := match interp_fcn linear qa (sr_ib1 r) qb with
                     | Some (f, _) => f | None => FLin 0 0 end in
           1 :: enc_zlist (sr_ib1 r) ++ enc_zlist (sr_ib r)
-            ++ [enc_bool (frag1 tbin delta tsa tsb); enc_bool (frag2 tbin f1 tsa tsb (sr_ib1 r))]
+            ++ [enc_bool (frag1 epsz tbin delta tsa tsb);
+                enc_bool (frag2 (Qmake 1 (Z.to_pos (2 ^ 30))) (tq den tbin) f1 qa qb (sr_ib1 r))]
             ++ [fixq (10 ^ 18) (sr_slope r)]
-            ++ enc_zlist (map (fun q => fixq (10 ^ 12) (apply_a2b (sr_fcn r) q)) qs)
+            ++ enc_zlist (map (fun q => fixq (10 ^ 12) (apply_a2b (sr_fcn r) (tq den q))) qs)
       end
   | _ => [-999]
   end.
